@@ -25,7 +25,7 @@ StartupMsg == [t |-> "Startup", term |-> TRUE, kvs |-> <<[k |-> "user", v |-> "u
 StartupTail == [t |-> "Startup", term |-> TRUE, kvs |-> <<[k |-> "user", v |-> "u"], [k |-> "database", v |-> "d"]>>, tail |-> "good-leftover"]
 
 InPlaceOfPassword ==
-    {[t |-> "p", pw |-> o, pwd |-> o] : o \in {"good", "bad", "err", "errc"}}
+    {[t |-> "p", pw |-> o, pwd |-> o] : o \in {"good", "bad", "err", "errc", "gooderr"}}
     \cup {[t |-> "Q", q |-> Q1], [t |-> "X"], [t |-> "S"], [t |-> "U"],
           [t |-> "P", name |-> "", q |-> Q1, noids |-> 0],
           [t |-> "Bad", ty |-> "p", cls |-> "nonul"], [t |-> "Bad", ty |-> "p", cls |-> "short"],
